@@ -251,6 +251,10 @@ Print Assumptions C13_expired_never_during_a_renewal_refuted.
     (History form, evaluated on the implementation by [Check.run_ok]: a handshake answered with the
     initially cached expired certificate has waited, and an attempt for the name has failed since it was
     first seen waiting.) *)
+(** (The renew worker's counterpart, [C13_new_cert_after_renewal], has no hypothesis on the old
+    certificate still being cached: the reload step inserts the new one also when the old one has been
+    evicted meanwhile, [LEvict].  History form, second part ([Check.run_ok]): a handshake for the name
+    that has been seen waiting ends with an error only if an attempt has failed since it began waiting.) *)
 Theorem C13_waiters_of_a_successful_attempt_find_its_result :
   (forall s t th ch c0 b, t_pc th = PObtLoad ch -> store s (t_name th) = Some c0 ->
      exists s', thread_step s t th (AStep b) = Some s' /\
